@@ -13,6 +13,8 @@ import (
 	"github.com/contiv/libOpenflow/util"
 	"github.com/sirupsen/logrus"
 	stdlog "log"
+	"pgregory.net/rapid"
+	"verifharness/ev"
 )
 
 func TestMain(m *testing.M) {
@@ -120,5 +122,38 @@ func setXidReflect(m util.Message, xid uint32) {
 		if f := h.FieldByName("Xid"); f.IsValid() && f.CanSet() {
 			f.SetUint(uint64(xid))
 		}
+	}
+}
+
+// checkRapid is rapid.Check with one addition: a panic that escapes the property
+// function from inside the library - a constructor, an adder, an encoder called
+// by a generator on the values it is documented to accept - is a violation of the
+// property under test ("... or reports an error, never a panic"; a builder that
+// cannot build what the property quantifies over), not a crash of the check.
+// Panics from rapid itself (its control flow) and from the harness pass through.
+func checkRapid(t *testing.T, c *ev.Collector, prop func(*rapid.T)) {
+	rapid.Check(t, guardLib(c, prop))
+}
+
+func guardLib(c *ev.Collector, prop func(*rapid.T)) func(*rapid.T) {
+	return func(rt *rapid.T) {
+		defer func() {
+			r := recover()
+			if r == nil {
+				return
+			}
+			if tn := fmt.Sprintf("%T", r); strings.Contains(tn, "rapid.") {
+				panic(r)
+			}
+			fr := libFrame()
+			if fr == "?" {
+				panic(r)
+			}
+			msg := fmt.Sprint(r)
+			c.Report(rt, c.Property+"|panic-on-generated-input|"+fr, "the library panicked while a generated, legitimate value was built or encoded: "+msg, map[string]any{"panic": msg, "frame": fr})
+		}()
+		caseArm(c)
+		defer caseDisarm()
+		prop(rt)
 	}
 }
